@@ -87,6 +87,30 @@ type EF struct {
 	// translations: EOF tests on raw-tagged values whose equal edge replaces the error
 	// (function + position-independent ordinal) -> origins translated there
 	translations map[string]map[string]bool
+	// validators: per function, the producers of returned errors (a helper or an error value) seen
+	// on an exit where no source error is known to be non-nil: a validation that is performed and
+	// reported whether or not the source failed
+	validators map[*ssa.Function]map[string]bool
+}
+
+// producerKey names what produced a returned error: the helper called, or the value itself.
+func producerKey(v ssa.Value) string {
+	switch x := v.(type) {
+	case *ssa.Call:
+		if f := x.Call.StaticCallee(); f != nil {
+			return "call:" + FnName(f)
+		}
+	case *ssa.Extract:
+		if c, ok := x.Tuple.(*ssa.Call); ok {
+			if f := c.Call.StaticCallee(); f != nil {
+				return fmt.Sprintf("call:%s#%d", FnName(f), x.Index)
+			}
+		}
+	}
+	if v.Parent() != nil {
+		return "val:" + FnName(v.Parent()) + ":" + v.Name()
+	}
+	return "val:" + v.Name()
 }
 
 var efCache = map[*Ctx]*EF{}
@@ -232,7 +256,7 @@ func callKey(caller *ssa.Function, ci ssa.CallInstruction) string {
 	for _, b := range theCtx.GB(caller) {
 		for _, ins := range b.Instrs {
 			if c2, ok := ins.(ssa.CallInstruction); ok && calleeName(c2) == name {
-				same = append(same, pc{c2.Pos(), c2})
+				same = append(same, pc{effectivePos(caller, c2, 0), c2})
 			}
 		}
 	}
@@ -244,6 +268,36 @@ func callKey(caller *ssa.Function, ci ssa.CallInstruction) string {
 		}
 	}
 	return fmt.Sprintf("%s:%s#%d", FnName(caller), name, ord)
+}
+
+// effectivePos: a call inside a new helper counts at the place where caller calls the helper
+// (the ordinal of an origin does not change when the code around it moves into a helper).
+func effectivePos(caller *ssa.Function, ci ssa.CallInstruction, depth int) token.Pos {
+	h := ci.Parent()
+	if h == caller || depth > 4 || !theCtx.IsNew(h) {
+		return ci.Pos()
+	}
+	best := token.NoPos
+	for _, s := range theCtx.callSites(h) {
+		var p token.Pos
+		if s.Parent() == caller {
+			p = s.Pos()
+		} else if theCtx.IsNew(s.Parent()) {
+			p = effectivePos(caller, s, depth+1)
+			if s.Parent() != caller && p == s.Pos() {
+				continue // not reached from caller
+			}
+		} else {
+			continue
+		}
+		if best == token.NoPos || p < best {
+			best = p
+		}
+	}
+	if best == token.NoPos {
+		return ci.Pos()
+	}
+	return best
 }
 
 // callOrigins returns, per error result index, the origins of a call's error results.
@@ -998,6 +1052,23 @@ func (r *efRun) exit(p *PState, ins ssa.Instruction) {
 			s.consumed[v] = true
 		}
 	}
+	if retErr != nil && !p.IsNil(retErr) {
+		anyFailed := false
+		for v := range s.defined {
+			if p.NonNil(v) && !s.consumed[v] || p.Resolve(retErr) == v {
+				anyFailed = true
+			}
+		}
+		if !anyFailed {
+			if e.validators == nil {
+				e.validators = map[*ssa.Function]map[string]bool{}
+			}
+			if e.validators[r.fn] == nil {
+				e.validators[r.fn] = map[string]bool{}
+			}
+			e.validators[r.fn][producerKey(p.Resolve(retErr))] = true
+		}
+	}
 	if !r.final {
 		return
 	}
@@ -1039,6 +1110,9 @@ func (r *efRun) exit(p *PState, ins ssa.Instruction) {
 			}
 			if retNonNil && !sentinel && (!strict || s.other[v]) {
 				continue
+			}
+			if retNonNil && !sentinel && strict && e.validators[r.fn][producerKey(p.Resolve(retErr))] {
+				continue // the same validation error is returned when the source did not fail
 			}
 			var sites []string
 			for site := range o {
